@@ -107,6 +107,25 @@ def fn_to_str(B, u):
     return ' | '.join(sorted(cubes))
 
 
+def fn_brief(B, u, limit=150):
+    """fn_to_str for small functions, a size note for large ones (sum-of-cubes of an adder bit is exponential)."""
+    if u in (0, 1):
+        return str(u)
+    seen, stack, vars_ = set(), [u], set()
+    while stack:
+        x = stack.pop()
+        if x in seen or x in (0, 1):
+            continue
+        seen.add(x)
+        if len(seen) > limit:
+            return '<function with more than %d BDD nodes>' % limit
+        v, lo, hi = B.nodes[x]
+        vars_.add(v)
+        stack.append(lo)
+        stack.append(hi)
+    return fn_to_str(B, u)
+
+
 def fn_from_str(B, s):
     s = s.strip()
     if s == '0':
@@ -297,7 +316,7 @@ def diff_payload(it, cond, pa, pb, path):
             d = B.AND(cond, B.XOR(p, q))
             if d != 0:
                 return ('%s: bit %d differs (tree: %s ; reference: %s)' % (
-                    path, k, fn_to_str(B, p)[:80], fn_to_str(B, q)[:80]), d)
+                    path, k, fn_brief(B, p)[:80], fn_brief(B, q)[:80]), d)
         return None
     if isinstance(pa, Tup) and isinstance(pb, Tup):
         if len(pa.items) != len(pb.items):
